@@ -14,7 +14,7 @@ Cat   == JsonDeserialize("/verif/spec/toy/catalogue.json")
 Cfg   == Cat.fields[IOEnv.CFG]
 MCF   == [p |-> Cfg.p, lv |-> Cfg.lv]
 MCK   == Len(Cfg.lv)
-MODE  == IOEnv.MODE            \* "arith" | "unary" | "conv"
+MODE  == IOEnv.MODE            \* "arith" | "unary" | "conv" | "tower"
 MCNREG == IF MODE = "arith" THEN 2 ELSE 1
 
 \* operand alphabet: all elements, or (for towers too large to enumerate) the structured
@@ -32,7 +32,15 @@ SparseElems(nz) == {TUnflatten(F, K, c \o <<>>) : c \in SparseCoords(nz) \cup De
 Elems == IF Cfg.alpha = "all" THEN TElems(F, K)
          ELSE SparseElems(IF MODE = "arith" THEN 1 ELSE 2)
 
-MCInit == /\ regs \in [Reg -> (IF MODE = "conv" THEN {Zero} ELSE Elems)]
+\* elements of the cyclotomic subgroup for the structured alphabets: y^((p^n - 1) / Phi_n(p)) through Frobenius maps
+CycProj(y) == LET n == TExtDeg(F, K)
+                  e1 == TMul(F, K, TFrob(F, K, y, n \div 2), TInv(F, K, y))           \* y^(p^(n/2) - 1)
+              IN  IF n = 12 THEN TMul(F, K, TFrob(F, K, e1, 2), e1)                    \* ... ^(p^2 + 1)
+                  ELSE IF n = 6 THEN TMul(F, K, TFrob(F, K, e1, 1), e1)                \* ... ^(p + 1)
+                  ELSE e1
+TowerElems == IF Cfg.alpha = "all" \/ K = 0 \/ TExtDeg(F, K) % 2 = 1 THEN Elems
+              ELSE Elems \cup {CycProj(y) : y \in Elems \ {Zero}}
+MCInit == /\ regs \in [Reg -> (IF MODE = "conv" THEN {Zero} ELSE IF MODE = "tower" THEN TowerElems ELSE Elems)]
           /\ ev = [op |-> "init"]
 
 \* exponents for pow: boundary values around the group order
@@ -77,6 +85,19 @@ UnaryNext ==
     \/ BatchInv(<<1>>, 0)
     \/ (K = 0 /\ IntoBigInt(1))
 
+\* tower-specific operations: every element x norm / conjugate / multiplication by every subfield sample / every sparse
+\* multiplication with coefficient samples; every element of the cyclotomic subgroup x fast square / inverse / exponentiation
+LevelSamples(j) == IF j = 0 THEN {0, 1, 2, F.p - 1} ELSE {TZero(F, j), TOne(F, j)} \cup {TUnflatten(F, j, [i \in 1..TExtDeg(F, j) |-> (i * i + 1) % F.p] \o <<>>),
+                                                                                        TUnflatten(F, j, [i \in 1..TExtDeg(F, j) |-> IF i = TExtDeg(F, j) THEN F.p - 1 ELSE 0] \o <<>>)}
+SlotSets == IF K < 2 THEN {} ELSE IF Deg(F, K) = 3 THEN {<<0, 1>>, <<1>>} ELSE IF Deg(F, K - 1) = 3 THEN {<<0, 3, 4>>, <<0, 1, 4>>} ELSE {}
+CycExps == {0, 1, 2, 3, 7, F.p - 1, F.p, F.p + 1, 255, 256}
+TowerNext ==
+    \/ Norm(1) \/ Conj(1)
+    \/ \E j \in 0..(K - 1) : \E s \in LevelSamples(j) : MulBase(1, j, s)
+    \/ \E sl \in SlotSets : \E c1 \in LevelSamples(SlotLevel(F, K)), c2 \in LevelSamples(SlotLevel(F, K)), c3 \in {TOne(F, SlotLevel(F, K)), TZero(F, SlotLevel(F, K))} :
+          Sparse(1, sl, SubSeq(<<c1, c2, c3>>, 1, Len(sl)))
+    \/ CycSq(1) \/ CycInv(1) \/ \E e \in CycExps : CycExp(1, e)
+
 ConvNext ==
   /\ ev.op = "init"         \* constructors do not depend on the pre-state: explore from Init only
   /\
@@ -91,6 +112,7 @@ MCNext == /\ ev.op = "init"
           /\ CASE MODE = "arith" -> ArithNext
                [] MODE = "unary" -> UnaryNext
                [] MODE = "conv"  -> ConvNext
+               [] MODE = "tower" -> TowerNext
 
 View == regs
 
